@@ -18,10 +18,12 @@ REPO = os.environ.get("FLOONOC_REPO", "/repo")
 def run_case(c):
     tmp = tempfile.mkdtemp(prefix="fv_cli_")
     try:
-        cfg = os.path.join(tmp, "cfg.yml")
+        cfg = os.path.join(tmp, c.get("cfg_name", "cfg.yml"))
         y = ruamel.yaml.YAML(typ="safe")
         y.default_flow_style = False
-        if c.get("yaml_text") is not None:
+        if c.get("cfg_path") is not None:
+            cfg = c["cfg_path"]          # a shipped file, under its own name and path (as the build flow invokes floogen)
+        elif c.get("yaml_text") is not None:
             open(cfg, "w").write(c["yaml_text"])
         else:
             with open(cfg, "w") as f:
